@@ -218,7 +218,6 @@ func (sh *SessionHandler) rpcFormContract(s *session, log *zap.Logger) (contract
 		s.t.WriteResponseErr(err)
 		return contracts.Usage{}, err
 	}
-	sh.syncer.BroadcastTransactionSet(formationTxnSet)
 
 	signedRevision := contracts.SignedRevision{
 		Revision:        initialRevision,
@@ -232,6 +231,10 @@ func (sh *SessionHandler) rpcFormContract(s *session, log *zap.Logger) (contract
 		s.t.WriteResponseErr(err)
 		return contracts.Usage{}, fmt.Errorf("failed to add contract to store: %w", err)
 	}
+	// broadcast only after the contract is stored: a block confirming the
+	// formation is only recognized if the contract is known when it is
+	// processed
+	sh.syncer.BroadcastTransactionSet(formationTxnSet)
 
 	// send the host signatures to the renter
 	hostSignaturesResp := &rhp2.RPCFormContractSignatures{
@@ -415,13 +418,14 @@ func (sh *SessionHandler) rpcRenewAndClearContract(s *session, log *zap.Logger) 
 		s.t.WriteResponseErr(err)
 		return contracts.Usage{}, err
 	}
-	sh.syncer.BroadcastTransactionSet(renewalTxnSet)
 
 	// update the existing contract and add the renewed contract to the store
 	if err := sh.contracts.RenewContract(signedRenewal, signedClearing, renewalTxnSet, lockedCollateral, clearingUsage, renewalUsage); err != nil {
 		s.t.WriteResponseErr(err)
 		return contracts.Usage{}, fmt.Errorf("failed to renew contract: %w", err)
 	}
+	// broadcast only after the renewal is stored, see rpcFormContract
+	sh.syncer.BroadcastTransactionSet(renewalTxnSet)
 	// the session's contract is now the cleared one: it is at its final
 	// revision and must not be revised or renewed again
 	s.contract = signedClearing
